@@ -1,6 +1,7 @@
 (* C11 — vector-space, dot, cross laws, for every coordinate-system signature.  Statements only. *)
 From Coq Require Import Reals Lra Psatz.
 From VP Require Import Lib RLib Spec Compute Tables Spec_planar Spec_spatial1 Spec_spatial2 Spec_lorentz C11_laws.
+From VP Require Import Spec_lorentz Spec_lorentz2 Spec_lorentz3.
 From VP Require ObjModel ObjNames NbModel NbApi NbChecks.
 Import ObjNames List.ListNotations.
 Open Scope R_scope.
@@ -89,6 +90,39 @@ Proof.
   - replace (x / n * (x / n) + y / n * (y / n)) with ((x * x + y * y) / (n * n)) by (field; lra). rewrite Hq. field. lra.
   - field. lra.
   - replace (x / n * x + y / n * y) with ((x * x + y * y) * / n) by (field; lra). nra.
+Qed.
+
+(* spatial unit: norm one, parallel to v; lorentz unit: Minkowski norm one (time-like v), all signatures *)
+Theorem C11_spatial_and_lorentz_unit : forall s l a b c, rep3 s l a b c -> 0 < smag2 s l a b c ->
+  (match den3 (T_spatial_unit s l a b c) with
+   | Some (u, v, w) => u * u + v * v + w * w = 1 /\
+                       u * sy s a b - v * sx s a b = 0 /\ v * sz s l a b c - w * sy s a b = 0 /\
+                       0 < u * sx s a b + v * sy s a b + w * sz s l a b c
+   | None => False end) /\
+  (forall t d, rep4 s l t a b c d -> smag2 s l a b c < st s l t a b c d * st s l t a b c d -> (t = TTau -> 0 < d) ->
+     match den4 (T_lorentz_unit s l t a b c d) with
+     | Some (u, v, w, e) => e * e - (u * u + v * v + w * w) = 1
+     | None => False end).
+Proof.
+  intros s l a b c H Hm. split.
+  - rewrite unit_spec3 by assumption.
+    assert (Hu : 0 < sqrt (smag2 s l a b c)) by (apply sqrt_lt_R0; exact Hm).
+    pose proof (sqrt_sqrt (smag2 s l a b c) (Rlt_le _ _ Hm)) as Hq.
+    set (n := sqrt (smag2 s l a b c)) in *. unfold smag2 in Hq, Hm. set (x := sx s a b) in *. set (y := sy s a b) in *. set (z := sz s l a b c) in *.
+    assert (Hi : 0 < / n) by (apply Rinv_0_lt_compat; exact Hu).
+    repeat split.
+    + replace (x / n * (x / n) + y / n * (y / n) + z / n * (z / n)) with ((x * x + y * y + z * z) / (n * n)) by (field; lra). rewrite <- Hq. field. lra.
+    + field. lra.
+    + field. lra.
+    + replace (x / n * x + y / n * y + z / n * z) with ((x * x + y * y + z * z) * / n) by (field; lra). nra.
+  - intros t d H4 Htl Hd. rewrite (unit_spec4 s l t a b c d H4 Htl Hd).
+    set (T := st s l t a b c d) in *. set (P := smag2 s l a b c) in *.
+    assert (Hq0 : 0 < T * T - P) by lra.
+    assert (Hu : 0 < sqrt (T * T - P)) by (apply sqrt_lt_R0; exact Hq0).
+    pose proof (sqrt_sqrt (T * T - P) (Rlt_le _ _ Hq0)) as Hq. set (n := sqrt (T * T - P)) in *.
+    unfold P, smag2 in Hq. set (x := sx s a b) in *. set (y := sy s a b) in *. set (z := sz s l a b c) in *.
+    replace (T / n * (T / n) - (x / n * (x / n) + y / n * (y / n) + z / n * (z / n))) with ((T * T - (x * x + y * y + z * z)) / (n * n)) by (field; lra).
+    rewrite <- Hq. field. lra.
 Qed.
 
 (* the same laws hold in numba-compiled code: for these operations every program point of the numba-supported API has the
